@@ -50,6 +50,18 @@ def main():
             shutil.copy(os.path.join(src, f), os.path.join(out, f))
     wt = "/tmp/seedwt_%s_%d" % (sid, os.getpid())
     meta = {"seed": sid, "breaks_property": prop, "ran": [], "at": time.strftime("%Y-%m-%d %H:%M:%S")}
+    prev = {}
+    if os.path.exists(os.path.join(out, "meta.json")):
+        prev = json.load(open(os.path.join(out, "meta.json")))
+    if "--no-tests" in flags:
+        for k in ("tests_stable_passing", "tests_newly_failing", "tests_wall_s"):
+            if k in prev:
+                meta[k] = prev[k]
+        if "tests_stable_passing" in prev:
+            meta["ran"].append("pinned test suite (BASELINE.json command) on the patched worktree [earlier evaluation run, same patch]")
+        if prev.get("checks"):
+            meta["earlier_check_runs"] = prev.get("earlier_check_runs", []) + [{"verif_commit": prev.get("verif_commit"), "checks": prev["checks"]}]
+    meta["verif_commit"] = sh(["git", "-C", VERIF, "rev-parse", "--short", "HEAD"]).stdout.strip()
     try:
         r = sh(["git", "-C", "/repo", "worktree", "add", "--detach", wt, "HEAD", "-q"])
         assert r.returncode == 0, r.stderr
